@@ -200,8 +200,70 @@ def sink_local_failures():
     return runs
 
 
+def sink_negative_acks():
+    """MQTT 5: the peer answers with reason codes >= 0x80 (PUBACK / PUBREC not authorised).  The send completes with the
+    contents of that acknowledgement; for QoS 2 whatever the application does with the receipt afterwards (release,
+    drop, keep) must not disturb another exchange: two overlapping QoS 2 sends, the first rejected, the second accepted,
+    receipts released / dropped in every order"""
+    runs = []
+    for role in ("server", "client"):
+        for first in ("release1", "drop1", "release2", "keep1"):
+            for k2 in ("q2", "q1"):
+                cfg = dict(role=role, ver=5, max_send=4, gate_pub=1)
+                cmds = [handshake(role, 5, connack={"rm": 4}, connect={"rm": 4}),
+                        {"c": "send", "s": 1, "k": "q2", "id": 0}, {"c": "poll", "s": 1},
+                        {"c": "send", "s": 2, "k": k2, "id": 0}, {"c": "poll", "s": 2},
+                        {"c": "ack", "n": 1, "rc": 135}, {"c": "ack", "n": 1},
+                        {"c": "poll", "s": 1}, {"c": "poll", "s": 2}]
+                rel = lambda s_: [{"c": "release", "s": s_, "t": s_ + 20}, {"c": "poll", "s": s_ + 20}]
+                if first == "release1":
+                    cmds += rel(1) + (rel(2) if k2 == "q2" else [])
+                elif first == "drop1":
+                    cmds += [{"c": "rdrop", "s": 1}] + (rel(2) if k2 == "q2" else [])
+                elif first == "release2":
+                    cmds += (rel(2) if k2 == "q2" else []) + rel(1)
+                cmds += [{"c": "send", "s": 3, "k": "q1", "id": 0}, {"c": "poll", "s": 3}, {"c": "settle"}]
+                runs.append(dict(cfg=cfg, cmds=cmds, src="negative_ack"))
+        # QoS 1 rejected
+        cfg = dict(role=role, ver=5, max_send=1, gate_pub=1)
+        runs.append(dict(cfg=cfg, src="negative_ack", cmds=[
+            handshake(role, 5, connack={"rm": 1}, connect={"rm": 1}),
+            {"c": "send", "s": 1, "k": "q1", "id": 0}, {"c": "poll", "s": 1}, {"c": "send", "s": 2, "k": "q1", "id": 0}, {"c": "poll", "s": 2},
+            {"c": "ack", "n": 1, "rc": 135}, {"c": "poll", "s": 1}, {"c": "poll", "s": 2}, {"c": "settle"}]))
+    return runs
+
+
+def sink_dropped_senders():
+    """a send future dropped at every stage of its exchange (before the first poll, after the packet was written, after
+    PUBREC arrived and before / after the sender saw it), next to a second exchange that goes on: the peer's
+    acknowledgements for the abandoned exchange must neither disturb the other one nor the connection"""
+    runs = []
+    for ver in (3, 5):
+        for role in ("server", "client"):
+            for kind in ("q1", "q2") + (("sub",) if role == "client" else ()):
+                stages = ["unpolled", "written"] + (["pubrec_unseen", "pubrec_seen"] if kind == "q2" else [])
+                for stage in stages:
+                    cfg = dict(role=role, ver=ver, max_send=4, gate_pub=1)
+                    hs = {"rm": 4} if ver == 5 else None
+                    cmds = [handshake(role, ver, connack=hs, connect=hs),
+                            {"c": "send", "s": 1, "k": kind, "id": 0}]
+                    other = [{"c": "send", "s": 2, "k": "q2", "id": 0}, {"c": "poll", "s": 2}]
+                    if stage == "unpolled":
+                        cmds += other + [{"c": "drop", "s": 1}]
+                    elif stage == "written":
+                        cmds += [{"c": "poll", "s": 1}] + other + [{"c": "drop", "s": 1}, {"c": "ack", "n": 1}]
+                    elif stage == "pubrec_unseen":
+                        cmds += [{"c": "poll", "s": 1}] + other + [{"c": "ack", "n": 1}, {"c": "drop", "s": 1}]
+                    else:
+                        cmds += [{"c": "poll", "s": 1}] + other + [{"c": "ack", "n": 1}, {"c": "poll", "s": 1}, {"c": "rdrop", "s": 1}]
+                    cmds += [{"c": "ack", "n": 2}, {"c": "poll", "s": 2}, {"c": "release", "s": 2, "t": 22}, {"c": "poll", "s": 22},
+                             {"c": "send", "s": 3, "k": "q1", "id": 0}, {"c": "poll", "s": 3}, {"c": "settle"}]
+                    runs.append(dict(cfg=cfg, cmds=cmds, src="dropped_sender"))
+    return runs
+
+
 def sink_random(tier, rnd):
-    runs = sink_local_failures()
+    runs = sink_local_failures() + sink_negative_acks() + sink_dropped_senders()
     for _ in range(300 if tier == "quick" else 4000):
         ver = rnd.choice([3, 5])
         role = rnd.choice(["server", "client"])
@@ -421,6 +483,8 @@ def inb_configs(tier):
             # streamed payloads: a PUBLISH of 12 bytes of which 4 come with the header, pieces of 4 / 8 bytes, the last
             # piece alone or in one write with the next PUBLISH; handlers that read the payload to its end or abandon it
             base.append(("strm", dict(ids="Ids12", n=n + 2, kinds="KStrm", chunks="C48", outs="OOk", imm=F, gp=F, strict=3)))
+            # ... the same with one streamed publish and its pieces only: small enough for every behaviour to be replayed
+            base.append(("strm1", dict(ids="Ids1", n=4, kinds="KStrm1", chunks="C48", outs="OOk", imm=F, gp=F, strict=3, mc=4)))
             base.append(("strm4", dict(ids="Ids12", n=n + 2, kinds="KStrm", chunks="C48", outs="OOk", imm=F, gp=F, strict=3, mc=4)))
             if not srv:
                 # QoS 2 towards a client: known finding (acknowledged with PUBACK), kept small
@@ -831,6 +895,17 @@ def c15_extra(tier, rnd):
             cmds += [{"c": "complete", "h": 2, "o": "ok"}] + ([{"c": "complete", "h": 3, "o": "ok"}] if late == 2 else [])
             cmds += [{"c": "complete", "j": 99, "o": "ok"}, {"c": "drain"}]
             runs.append(dict(cfg=cfg, cmds=cmds, src="slow_shutdown_" + name))
+    # one restriction in force at a time, the offending PUBLISH carrying every combination of the other flags: the
+    # DISCONNECT names the restriction that was violated, not one that the packet merely touches
+    mark = lambda k: {"c": "mark", "e": "cause", "k": k}
+    for restr, cfgx, base in (("qos", dict(max_qos=1), dict(q=2, id=5)), ("qos", dict(max_qos=0), dict(q=1, id=5)),
+                              ("retain", dict(max_qos=2, ack_retain_available=0), dict(q=1, id=6, retain=1)),
+                              ("retain", dict(max_qos=2, ack_retain_available=0), dict(q=2, id=6, retain=1))):
+        for retain in ((0, 1) if restr == "qos" else (1,)):
+            for dup in (0, 1):
+                cfg = dict(dict(role="server", ver=5, gate_pub=0, gate_proto=0, max_receive=16, max_topic_alias=2), **cfgx)
+                runs.append(dict(cfg=cfg, src="one_restriction_" + restr,
+                                 cmds=[handshake("server", 5), mark(restr), pub(**dict(base, retain=retain, dup=dup)), {"c": "drain"}]))
     return runs
 
 
@@ -1827,6 +1902,14 @@ def c20_extra(tier, rnd):
         runs.append(dict(cfg=dict(role="client", ver=ver, client_keep_alive=2),
                          cmds=[{"c": "in", "p": {"t": "connack", "rc": 0}}, {"c": "mark", "k": "expect_pings", "n": 2}] + [{"c": "sleep", "ms": 1000}] * 7,
                          src="client_ping"))
+        if ver == 5:
+            # the client asked for no keep-alive (or a long one) and the server imposes its own (Server Keep Alive in
+            # CONNACK): that value governs the connection, the client pings once per 2 s period
+            for own in (0, 30):
+                runs.append(dict(cfg=dict(role="client", ver=5, client_keep_alive=own),
+                                 cmds=[{"c": "in", "p": {"t": "connack", "rc": 0, "ska": 2}}, {"c": "mark", "k": "expect_pings", "n": 2}]
+                                      + [{"c": "sleep", "ms": 1000}] * 7,
+                                 src="client_ping_server_keep_alive"))
         # client keep-alive pings while the send window is full (one unacknowledged QoS 1 publish, window 1) at a
         # keep-alive tick, and after it was acknowledged: the pings must go on, once per period
         runs.append(dict(cfg=dict(role="client", ver=ver, client_keep_alive=2, max_send=1),
